@@ -118,6 +118,17 @@ Theorem C07_polls_dist_bop : forall la lb, polls (dist_bop_trace la lb) = dist_b
 Proof. exact polls_dist_bop_lemma. Qed.
 Print Assumptions C07_polls_dist_bop.
 
+(* a >> n for any count n: the zero test inside rshift_n's loop bounds the
+   work by the bit length of a (a Small value is shifted at most 64 times
+   without a poll, a Large one polls per limb) -- never by the count *)
+Theorem C07_gap_bound_rshift_n : forall small l bits n, gap (rshift_n_trace small l bits n) <= bits + 1.
+Proof. exact gap_bound_rshift_n_lemma. Qed.
+Print Assumptions C07_gap_bound_rshift_n.
+
+Theorem C07_work_rshift_n_small : forall bits n, work (rshift_n_trace true 1 bits n) = N.min n bits.
+Proof. exact work_rshift_n_small. Qed.
+Print Assumptions C07_work_rshift_n_small.
+
 (* digit expansions (BigRat format_trailing_digits): however many digits are
    produced -- n decimal places, or a period of up to d - 1 digits found by
    Brent's cycle detection -- the work between two polls is bounded by a
